@@ -11,6 +11,8 @@ use std::{
 
 pub mod c19;
 
+mod c18;
+
 /// A component in a box, driven through the line protocol.
 pub trait VerifBox {
     /// Execute one operation and return its canonical observation.
@@ -27,6 +29,7 @@ pub fn new_box(area: &str) -> Option<Box<dyn VerifBox>> {
         "c14" => Some(Box::new(
             crate::protocol::libp2p::kademlia::verif_c14_new(),
         )),
+        "c18" => Some(Box::new(c18::PeerIdBox::new())),
         _ => None,
     }
 }
@@ -38,6 +41,7 @@ pub fn areas() -> Vec<&'static str> {
         "c17",
         "c19",
     ]
+    vec!["c17", "c18"]
 }
 
 /// Decode a hex string.
